@@ -25,6 +25,57 @@ use chess_movegen::{Board, ChessMove};
 use colorz::Colorize as _;
 pub use score::Score;
 
+/// Observation hooks for the out-of-tree verification harness (feature `verif-hooks`):
+/// a thread-local log of the search's deepening passes.
+#[cfg(feature = "verif-hooks")]
+pub mod verif {
+    use super::{ChessMove, Score};
+    use std::cell::RefCell;
+
+    #[derive(Debug, Clone, Copy, PartialEq, Eq)]
+    pub enum Stage {
+        PrevBest,
+        Captures,
+        Quiets,
+    }
+
+    #[derive(Debug, Clone, Copy, PartialEq)]
+    pub enum Event {
+        PassStart {
+            depth: u16,
+        },
+        Stage {
+            depth: u16,
+            stage: Stage,
+        },
+        PassCommit {
+            depth: u16,
+            score: Score,
+            best_move: Option<ChessMove>,
+        },
+    }
+
+    thread_local! {
+        static EVENTS: RefCell<Vec<Event>> = const { RefCell::new(Vec::new()) };
+    }
+
+    pub(crate) fn emit(event: Event) {
+        EVENTS.with(|events| events.borrow_mut().push(event));
+    }
+
+    pub fn take_events() -> Vec<Event> {
+        EVENTS.with(|events| core::mem::take(&mut *events.borrow_mut()))
+    }
+
+    pub fn last_event() -> Option<Event> {
+        EVENTS.with(|events| events.borrow().last().copied())
+    }
+
+    pub fn event_count() -> usize {
+        EVENTS.with(|events| events.borrow().len())
+    }
+}
+
 #[derive(Default)]
 pub struct Engine {
     pub moves_evaluated: u64,
@@ -269,6 +320,8 @@ impl Engine {
 
         loop {
             tracing::debug!(color = ?P::COLOR, depth, board=%board, "start depth");
+            #[cfg(feature = "verif-hooks")]
+            verif::emit(verif::Event::PassStart { depth });
             let mut score = P::WORST_SCORE;
             let mut best_mv_at = None;
 
@@ -286,6 +339,11 @@ impl Engine {
 
             if let Some(mv) = best_mv {
                 tracing::debug!("Consider previous best move");
+                #[cfg(feature = "verif-hooks")]
+                verif::emit(verif::Event::Stage {
+                    depth,
+                    stage: verif::Stage::PrevBest,
+                });
                 moves.remove_move(mv);
 
                 let new = self.alphabeta::<P::Flip>(mv, &args);
@@ -302,6 +360,12 @@ impl Engine {
 
                 P::update_cutoff(&mut args.alpha, &mut args.beta, score)
             }
+
+            #[cfg(feature = "verif-hooks")]
+            verif::emit(verif::Event::Stage {
+                depth,
+                stage: verif::Stage::Captures,
+            });
 
             // iterate over captures first
             moves.set_mask(board[!P::COLOR]);
@@ -327,6 +391,11 @@ impl Engine {
             }
 
             tracing::debug!("Consider normal moves");
+            #[cfg(feature = "verif-hooks")]
+            verif::emit(verif::Event::Stage {
+                depth,
+                stage: verif::Stage::Quiets,
+            });
 
             // clear mask
             moves.set_mask(!BitBoard::empty());
@@ -355,6 +424,12 @@ impl Engine {
             best_mv = best_mv_at;
             best_score = score;
             self.max_depth = depth;
+            #[cfg(feature = "verif-hooks")]
+            verif::emit(verif::Event::PassCommit {
+                depth,
+                score: best_score,
+                best_move: best_mv,
+            });
             depth += 1;
 
             match score {
